@@ -17,7 +17,7 @@ PROP = "C07"
 TECHNIQUE = (
     "all genotypes over a gene alphabet (GE, SGE, stack) / all genotypes reachable by exhaustive creation (dSGE) are "
     "mapped under every answer of an exhaustive scripted shared source (E1) and under all interleavings of map / draw "
-    "histories up to length 4 with seeded native sources; monitor = number of draws served by the shared source"
+    "histories up to length 4 with seeded native sources; monitor = number of draws served by the shared source; stack genomes that complete a program are found by explicit-state search of the stack machine (BFS over draw prefixes of the real mapping, states = contents of its type stacks); crossover children / mutants of dSGE genotypes (incomplete gene lists) must be complete after their first mapping; every genotype is also mapped through a grammar object extracted afresh for it"
 )
 RULE = (
     "unit = grammar x representation x decider; for each genotype: (i) the set of programs over ALL answers of the shared "
